@@ -45,6 +45,15 @@ def gen(tier, seed):
         inv = {k: not v for k, v in o.items()}
         pairs.append([tab_request(s1, opts=inv), tab_request(s1, opts=o)])
         pairs.append([vis_request(s1, opts={"annotations": inv["annotations"], "dov": True, "binaryTree": True}), tab_request(s1, opts=o)])
+    # a URL request that leaves an option out (the page's default applies) after a request that set that option either way
+    for k in TAB_BOOL:
+        for v in (False, True):
+            prev = tab_request(s1, opts={kk: (v if kk == k else rng.random() < 0.5) for kk in TAB_BOOL}, method=rng.choice(["POST", "GET"]))
+            pairs.append([prev, tab_request(s1, opts={kk: rng.random() < 0.5 for kk in TAB_BOOL if kk != k}, method="GET")])
+    for k in VIS_BOOL:
+        for v in (False, True):
+            prev = vis_request(s0, opts={kk: (v if kk == k else rng.random() < 0.5) for kk in VIS_BOOL}, method=rng.choice(["POST", "GET"]))
+            pairs.append([prev, vis_request(s0, opts={kk: rng.random() < 0.5 for kk in VIS_BOOL if kk != k}, method="GET")])
     hist = []
     for _ in range(20 if tier == "quick" else 300):
         h = [(rnd_vis if rng.random() < 0.5 else rnd_tab)(rng) for _ in range(rng.randint(2, 12))]
